@@ -14,6 +14,12 @@
     run through the library and through the real binary and the observed number/Code()/status compared
     with [process_status].
 
+    Second part (module FixedLength below): the fixed-length loader with explicit delimiter positions on
+    UTF-8 text (Model/Fixed.v, mirroring go-text/fixedlen's parseRecord and loadViewFromFixedLengthTextFile):
+    fixed_load_rectangular, progress and termination; tied to the code by comparing SELECT * FROM FIXED(…)
+    of the real binary with the model cell by cell.  The CSV / LTSV shape theorems (csv_load_rect,
+    ltsv_load_rect) live in the codec development (Proofs/Csv.v, Proofs/Ltsv.v; stated in Properties/C02.v).
+
     What is NOT proved: that the Go code never panics ("Fatal Error"), never hangs and loads only
     rectangular tables.  That part of C19 is explored (loader fuzzing, boundary sweeps, file-system
     conditions, the nil-error translator obligation) -- see lib/props_c19.py.  [fatal_error_code_is_not_special]
